@@ -215,12 +215,29 @@ fn run_seq<P: Target>(v: Variant, seq: &[usize], e: &mut Eng) -> u64 {
                     }
                 }
                 1 => {
-                    if v.dyn_listed() {
-                        if let Some(Handle::C(_)) = &hs[i] {
-                            if let Some(Handle::C(r)) = hs[i].take() {
+                    if let Some(Handle::C(_)) = &hs[i] {
+                        if let Some(Handle::C(r)) = hs[i].take() {
+                            if v.dyn_listed() {
                                 let d: Reference<dyn Val> = to_dyn!(Val, r);
                                 hs[i] = Some(Handle::D(d));
                                 interesting = true;
+                            } else {
+                                // a variant the macro does not list: it may refuse (panic "not implemented",
+                                // consuming the handle), but a Reference it does hand out is a handle like any
+                                // other - it must alias the target and keep it alive
+                                match std::panic::catch_unwind(std::panic::AssertUnwindSafe(|| -> Reference<dyn Val> { to_dyn!(Val, r) })) {
+                                    Ok(d) => {
+                                        hs[i] = Some(Handle::D(d));
+                                        interesting = true;
+                                    }
+                                    Err(p) => {
+                                        let msg = p.downcast_ref::<String>().cloned().or_else(|| p.downcast_ref::<&str>().map(|x| x.to_string())).unwrap_or_default();
+                                        if !msg.contains("not implemented") {
+                                            std::panic::resume_unwind(p);
+                                        }
+                                        count -= 1;
+                                    }
+                                }
                             }
                         }
                     }
@@ -327,7 +344,7 @@ fn isolate(ctx: &Ctx) -> Vec<Eng> {
 /// is: a variable, a clone, a consuming expression (`Option::take`, `Vec::pop`, an iterator's
 /// `next`, `mem::replace`), a block with a side effect, or a call that builds a new target.
 fn arg_forms<P: Target>(v: Variant, e: &mut Eng) {
-    const FORMS: [&str; 8] = ["variable", "clone()", "Option::take().unwrap()", "Vec::pop().unwrap()", "Iterator::next().unwrap()", "mem::replace(&mut slot, other)", "block with a counter", "call building a fresh target"];
+    const FORMS: [&str; 10] = ["variable", "clone()", "Option::take().unwrap()", "Vec::pop().unwrap()", "Iterator::next().unwrap()", "mem::replace(&mut slot, other)", "block with a counter", "call building a fresh target", "clone() while a shared borrow of the original is held", "clone() while a mutable borrow of the original is held"];
     for (fi, fname) in FORMS.iter().enumerate() {
         let (fa, fb) = (Arc::new(AtomicBool::new(false)), Arc::new(AtomicBool::new(false)));
         let mut leaks: Vec<Leak<P>> = Vec::new();
@@ -386,6 +403,22 @@ fn arg_forms<P: Target>(v: Variant, e: &mut Eng) {
                         slot.take().unwrap()
                     });
                     (d, 1, evals == 1)
+                }
+                8 => {
+                    drop(b);
+                    let g = a.borrow();
+                    let d = to_dyn!(Val, a.clone());
+                    let ok = g.getv() == 11;
+                    drop(g);
+                    (d, 0, ok)
+                }
+                9 => {
+                    drop(b);
+                    let mut g = a.borrow_mut();
+                    let d = to_dyn!(Val, a.clone());
+                    g.setv(11);
+                    drop(g);
+                    (d, 0, true)
                 }
                 _ => {
                     drop(a);
@@ -459,7 +492,7 @@ pub fn run(ctx: &Ctx) -> Vec<Eng> {
     let depth = if ctx.thorough { 7 } else { 5 };
     let mut e = Eng::new(
         "c17-aliasing-seqs",
-        "for each Reference variant of the build: all sequences of exactly `depth` operations over {clone(h), to_dyn!(h) (variants the macro lists), read(h) (through borrow and borrow_mut), write(h, fresh value), drop(h)} x 3 handle slots on a fresh target; reference model = one cell + live-handle count: every read through any handle returns the last write, the payload's drop flag flips exactly when the last handle of an Rc/Arc variant goes away and never for pointer variants; non-trivial = a read while at least two handles are live, or a to_dyn! conversion",
+        "for each Reference variant of the build: all sequences of exactly `depth` operations over {clone(h), to_dyn!(h) (variants the macro does not list may refuse with 'not implemented'; a Reference they do hand out is judged like any other handle), read(h) (through borrow and borrow_mut), write(h, fresh value), drop(h)} x 3 handle slots on a fresh target; reference model = one cell + live-handle count: every read through any handle returns the last write, the payload's drop flag flips exactly when the last handle of an Rc/Arc variant goes away and never for pointer variants; non-trivial = a read while at least two handles are live, or a to_dyn! conversion",
         &format!("depth {} => 15^{} sequences x {} variants on an 8-aligned target, 15^{} on 64- and 4096-aligned targets", depth, depth, variants().len(), depth - 1),
     );
     for v in variants() {
@@ -497,8 +530,8 @@ pub fn run(ctx: &Ctx) -> Vec<Eng> {
     e.bounds.push_str(&format!("; plus all 12-operation sequences within {} deviations of read(h0) repeated", k));
     let mut f = Eng::new(
         "c17-to_dyn-argument-forms",
-        "for each variant the macro lists x 3 target layouts x 8 argument expression forms (variable, clone(), Option::take().unwrap(), Vec::pop().unwrap(), Iterator::next().unwrap(), mem::replace, a block with a side effect, a call that builds a fresh target) over two distinguishable targets: the conversion evaluates its argument exactly once, reads the value of the object that evaluation denotes, and a write through it is seen by the harness' witness clone of that object and not by the other target",
-        "8 argument forms x listed variants x 3 layouts (complete for this family)",
+        "for each variant the macro lists x 3 target layouts x 10 argument expression forms (variable, clone(), Option::take().unwrap(), Vec::pop().unwrap(), Iterator::next().unwrap(), mem::replace, a block with a side effect, a call that builds a fresh target, a clone converted while a shared / a mutable borrow of the original is held - the conversion itself borrows nothing) over two distinguishable targets: the conversion evaluates its argument exactly once, reads the value of the object that evaluation denotes, and a write through it is seen by the harness' witness clone of that object and not by the other target",
+        "10 argument forms x listed variants x 3 layouts (complete for this family)",
     );
     for v in variants() {
         if v.dyn_listed() {
